@@ -261,48 +261,32 @@ func c02R3(p *Prog, r *Report) {
 			continue
 		}
 		r.Fn(FuncName(fn))
-		c := NewPolyCtx(fn)
-		recv := fn.Params[0].Name()
-		hold := polySym(recv + ".LastTrigger").Sub(polySym(recv + ".stream.DataSegment.firstFrameIndex"))
-		npre := polySym(recv + ".NPresamples")
-		nsamp := polySym(recv + ".NSamples")
-		good := true
-		msg := ""
-		nret := 0
-		Instrs(fn, func(in ssa.Instruction) {
-			ret, ok := in.(*ssa.Return)
-			if !ok {
-				return
+		dTerms, desc, msg := scanStartDelay(p, r, fn, 0)
+		good := msg == ""
+		if good {
+			c := NewPolyCtx(fn)
+			nsamp := polySym(fn.Params[0].Name() + ".NSamples")
+			hasN := false
+			for _, t := range dTerms {
+				hasN = hasN || t.Equal(nsamp)
 			}
-			nret++
-			v := c.Of(ret.Results[0])
-			if v.Equal(npre) {
-				// clamp arm: must be taken only when the hold-off start is smaller
-				okc := false
-				for _, ci := range controllingIfs(ret.Block()) {
-					if bo, ok := ci.If.Cond.(*ssa.BinOp); ok && bo.Op == token.LSS && c.Of(bo.Y).Equal(npre) && ci.Branch == 0 {
-						okc = true
-					}
+			switch {
+			case !spec.auto && !(len(dTerms) == 1 && hasN):
+				good, msg = false, fmt.Sprintf("scan starts at %s, want LastTrigger - firstFrameIndex + NSamples (or NPresamples if smaller): a later start skips samples that were never searched, an earlier one violates the dead time", desc)
+			case spec.auto && !hasN:
+				// the larger of NSamples and the auto delay, kept in a local: a phi of exactly those two
+				okPhi := false
+				if len(dTerms) == 1 {
+					syms := dTerms[0].Symbols()
+					okPhi = len(syms) == 1 && strings.HasPrefix(syms[0], "phi")
 				}
-				if !okc {
-					good, msg = false, "the NPresamples return is not guarded by `start < NPresamples`"
-				}
-				return
-			}
-			rest := v.Sub(hold)
-			if !spec.auto {
-				if !rest.Equal(nsamp) {
-					good, msg = false, fmt.Sprintf("scan starts at %s, want LastTrigger - firstFrameIndex + NSamples (or NPresamples if smaller): a later start skips samples that were never searched, an earlier one violates the dead time", v)
-				}
-			} else {
-				// rest is max(NSamples, autoDelaySamples): a phi of exactly those two
-				syms := rest.Symbols()
-				if !(rest.Equal(nsamp) || (len(syms) == 1 && strings.HasPrefix(syms[0], "phi"))) {
-					good, msg = false, fmt.Sprintf("auto scan starts at %s, want LastTrigger - firstFrameIndex + max(NSamples, autoDelay)", v)
+				if !okPhi {
+					good, msg = false, fmt.Sprintf("auto scan starts at %s, want LastTrigger - firstFrameIndex + max(NSamples, autoDelay)", desc)
 				}
 			}
-		})
-		r.Check(good && nret >= 2, "C02.R3", FuncName(fn)+" scan start", p.Pos(fn.Pos()), "max(hold-off start, NPresamples)", msg)
+			_ = c
+		}
+		r.Check(good, "C02.R3", FuncName(fn)+" scan start", p.Pos(fn.Pos()), "max(hold-off start, NPresamples)", msg)
 	}
 	// scan loops
 	for _, name := range []string{"edgeTriggerComputeAppend", "levelTriggerComputeAppend"} {
@@ -854,4 +838,120 @@ func c02R8(p *Prog, r *Report) {
 			}
 		})
 	})
+}
+
+// maxTerms: v as the largest of a list of values (a builtin max, nested, or just v).
+func maxTerms(c *PolyCtx, v ssa.Value) []Poly {
+	if call, ok := v.(*ssa.Call); ok {
+		isMax := false
+		if b, isB := call.Call.Value.(*ssa.Builtin); isB && b.Name() == "max" {
+			isMax = true
+		} else if callee := call.Call.StaticCallee(); callee != nil && isIntLike(call.Type()) && minMaxKind(callee) == "max" {
+			isMax = true
+		}
+		if isMax {
+			var out []Poly
+			for _, a := range call.Call.Args {
+				out = append(out, maxTerms(c, a)...)
+			}
+			return out
+		}
+	}
+	return []Poly{c.Of(v)}
+}
+
+// scanStartDelay analyses a function that must return max(LastTrigger - firstFrameIndex + D,
+// NPresamples) and returns D as a list of terms whose largest it is (polynomials over fn's own
+// names).  Forms understood: two returns with the NPresamples arm guarded by `start <
+// NPresamples`; one return of the builtin max; delegation of the whole computation to a helper
+// method of the same receiver that takes D as its parameter.  msg != "" reports a violation.
+func scanStartDelay(p *Prog, r *Report, fn *ssa.Function, depth int) (dTerms []Poly, desc, msg string) {
+	c := NewPolyCtx(fn)
+	recv := fn.Params[0].Name()
+	hold := polySym(recv + ".LastTrigger").Sub(polySym(recv + ".stream.DataSegment.firstFrameIndex"))
+	npre := polySym(recv + ".NPresamples")
+	var rets []*ssa.Return
+	Instrs(fn, func(in ssa.Instruction) {
+		if ret, ok := in.(*ssa.Return); ok {
+			rets = append(rets, ret)
+		}
+	})
+	// delegation
+	if len(rets) == 1 && depth < 2 {
+		if call, ok := rets[0].Results[0].(*ssa.Call); ok {
+			h := call.Call.StaticCallee()
+			if isModuleFn(h) && h.Signature.Recv() != nil && len(call.Call.Args) == 2 && call.Call.Args[0] == ssa.Value(fn.Params[0]) && len(h.Params) == 2 && isIntLike(h.Params[1].Type()) {
+				r.Fn(FuncName(h))
+				hTerms, hdesc, hmsg := scanStartDelay(p, r, h, depth+1)
+				if hmsg != "" {
+					return nil, hdesc, hmsg
+				}
+				hc := NewPolyCtx(h)
+				prm := hc.Of(h.Params[1])
+				if len(hTerms) != 1 || !hTerms[0].Equal(prm) {
+					return nil, hdesc, fmt.Sprintf("the helper %s starts the scan at %s, which is not hold-off start + its delay parameter", FuncName(h), hdesc)
+				}
+				ts := maxTerms(c, call.Call.Args[1])
+				var ds []string
+				for _, t := range ts {
+					ds = append(ds, t.String())
+				}
+				return ts, "LastTrigger - firstFrameIndex + max(" + strings.Join(ds, ", ") + ")", ""
+			}
+		}
+	}
+	// one return of max(hold + D, NPresamples)
+	if len(rets) == 1 {
+		ts := maxTerms(c, rets[0].Results[0])
+		var rest []Poly
+		sawPre := false
+		var ds []string
+		for _, t := range ts {
+			ds = append(ds, t.String())
+			if t.Equal(npre) {
+				sawPre = true
+			} else {
+				rest = append(rest, t)
+			}
+		}
+		desc = "max(" + strings.Join(ds, ", ") + ")"
+		if !sawPre || len(rest) != 1 {
+			return nil, desc, "the scan start is " + desc + ", want max(LastTrigger - firstFrameIndex + delay, NPresamples)"
+		}
+		return splitDelay(c, rest[0], hold), desc, ""
+	}
+	// several returns: the NPresamples arm under `start < NPresamples`, the other hold + D
+	for _, ret := range rets {
+		v := c.Of(ret.Results[0])
+		if v.Equal(npre) {
+			okc := false
+			for _, ci := range controllingIfs(ret.Block()) {
+				if bo, ok := ci.If.Cond.(*ssa.BinOp); ok && bo.Op == token.LSS && c.Of(bo.Y).Equal(npre) && ci.Branch == 0 {
+					okc = true
+				}
+			}
+			if !okc {
+				return nil, v.String(), "the NPresamples return is not guarded by `start < NPresamples`"
+			}
+			continue
+		}
+		dTerms = append(dTerms, splitDelay(c, v, hold)...)
+		desc = v.String()
+	}
+	if len(rets) < 2 {
+		return nil, desc, "the scan start is not the larger of the hold-off start and NPresamples"
+	}
+	return dTerms, desc, ""
+}
+
+// splitDelay: v - hold, as max-terms when the remainder is a single builtin-max symbol.
+func splitDelay(c *PolyCtx, v, hold Poly) []Poly {
+	rest := v.Sub(hold)
+	syms := rest.Symbols()
+	if len(syms) == 1 && len(rest) == 1 && rest[syms[0]] == 1 && strings.HasPrefix(syms[0], "max(") {
+		if args := c.opArgs[syms[0]]; len(args) > 0 {
+			return args
+		}
+	}
+	return []Poly{rest}
 }
